@@ -736,6 +736,16 @@ class Program:
             facts = extract(root, ndebug)
         self.units = sorted(facts)
         self.raw = facts
+        # canonicalisation: newly extracted static helpers (unknown to the frozen reference) are inlined into their callers
+        import inline as _inline
+        nm = _namemap()
+        self.inlined = {}
+        for u in self.units:
+            if u in nm and not facts[u].get("_inlined_done"):
+                done = _inline.inline_new_helpers(facts[u], set(nm[u].keys()))
+                facts[u]["_inlined_done"] = True
+                if done:
+                    self.inlined[u] = done
         self.funcs = []              # all Func
         self.by_name = defaultdict(list)
         self.records = {}            # name -> record (first definition wins; identical across units)
